@@ -14,7 +14,7 @@ RULE = ("case = model configuration of a Modbus family: (ET|DT, serial-number ta
         "case runs read_device_info() and two read_runtime_data() calls against a simulated inverter that returns exact-length "
         "answers; ProtocolResponse.read is wrapped and every read must start inside the payload and return as many bytes as "
         "requested. Non-trivial = configuration selects a non-default window (extended / extended-2 meter, MPPT, battery 2, or a "
-        "refusal fallback); distinct by configuration.")
+        "refusal fallback, or a transient failure); distinct by configuration.")
 ASSUMPTIONS = [
     "the simulated inverter answers every read with exactly count x 2 payload bytes (what a conforming inverter does)",
     "refusing a block means ILLEGAL DATA ADDRESS for any read touching its distinguishing registers",
@@ -65,29 +65,52 @@ def install_wrappers(log: ReadLog):
     Inverter._map_response = staticmethod(_map_response)
 
 
+class TransientFault:
+    """Wraps a responder: the k-th request (counted after read_device_info) fails once - no answer at all, or a Modbus
+    exception other than ILLEGAL DATA ADDRESS."""
+
+    def __init__(self, inner, k, kind, tcp):
+        self.inner, self.k, self.kind, self.tcp, self.n = inner, k, kind, tcp, -10 ** 9
+
+    def respond(self, data):
+        self.n += 1
+        if self.n == self.k:
+            if self.kind == "silent":
+                return None
+            return self.inner.exception(data, 4)
+        return self.inner.respond(data)
+
+
 def check_config(acc: Acc, cfg):
-    from goodwe.exceptions import RequestRejectedException
+    from goodwe.exceptions import InverterError, RequestRejectedException
     acc.case()
     log = ReadLog()
     install_wrappers(log)
     inv, sim = siminv.build_direct(cfg, default=lambda a: (a * 13 + 5) & 0xFFFF)
     if cfg["family"] == "ET":
         sim.set(35184, cfg.get("battery_mode", 1))
+    fault = None
+    if cfg.get("transient"):
+        k, kind = cfg["transient"]
+        fault = TransientFault(siminv.responder_for(inv, sim), k, kind, cfg.get("tcp", False))
+        siminv.attach_direct(inv, fault)
     nondefault = bool(cfg.get("refuse")) or cfg.get("rated_power", 0) >= 15000 or any(
         t in cfg["serial"].decode() for t in ("25KET", "29K9ET"))
     try:
         run_sync(inv.read_device_info())
         nondefault = nondefault or getattr(inv, "_has_mppt", False) or getattr(inv, "_has_meter_extended", False)
-        for _ in range(2):
+        if fault is not None:
+            fault.n = -1  # start counting with the first request of the first poll
+        for _ in range(2 if fault is None else 4):
             try:
                 run_sync(inv.read_runtime_data())
-            except RequestRejectedException:
-                pass
+            except InverterError:
+                pass      # refused / transiently failed poll; the following ones must still decode only what was fetched
     except Exception as ex:
         acc.fail("C14|%s|exception|%s" % (cfg["family"], type(ex).__name__), repr(ex), cfg)
         return
     if nondefault:
-        acc.nontrivial(cfg["family"], cfg["serial"], cfg.get("rated_power"), cfg.get("battery_mode"), tuple(cfg.get("refuse", ())), cfg.get("tcp"))
+        acc.nontrivial(cfg["family"], cfg["serial"], cfg.get("rated_power"), cfg.get("battery_mode"), tuple(cfg.get("refuse", ())), cfg.get("tcp"), repr(cfg.get("transient")))
     acc.cls("reads", log.reads)
     seen = set()
     for sid, first, count, pos, req, got in log.short:
@@ -119,6 +142,36 @@ def configs(family):
                         yield {"family": "DT", "serial": serial, "refuse": list(refuse), "tcp": tcp}
 
 
+def transient_configs():
+    """Reduced serial set x everything else x one transient failure at request k of the polling sequence."""
+    serials = [b"9010KETU000W0000", b"9010KETT000W0000", b"925KETT000W00001", b"929K9ETT00W00001", b"95000EHU000W0001", b"9010KXYZ000W0000"]
+    opt = ("battery", "battery2", "meter_ext2", "meter_ext", "mppt")
+    for serial in serials:
+        for power in (10000, 15000, 25000):
+            for r in range(len(opt) + 1):
+                for refuse in itertools.combinations(opt, r):
+                    for k in range(0, 9):
+                        for kind in ("silent", "busy"):
+                            yield {"family": "ET", "serial": serial, "rated_power": power, "battery_mode": 1, "refuse": list(refuse),
+                                   "tcp": bool(k & 1), "transient": [k, kind]}
+    for serial in (b"9010KDTU000W0000", b"9010KDSN000W0000"):
+        for refuse in ((), ("meter",)):
+            for k in range(0, 4):
+                for kind in ("silent", "busy"):
+                    yield {"family": "DT", "serial": serial, "refuse": list(refuse), "tcp": False, "transient": [k, kind]}
+
+
+def transient_job(j):
+    part, parts = j
+    acc = Acc()
+    for i, cfg in enumerate(transient_configs()):
+        if i % parts == part:
+            check_config(acc, cfg)
+            if len(acc.samples) < 1 and cfg["refuse"] == ["meter_ext2"]:
+                acc.sample(cfg)
+    return acc
+
+
 def job(j):
     family, part, parts = j
     acc = Acc()
@@ -133,6 +186,8 @@ def job(j):
 def run(ctx):
     jobs = [("ET", p, 15) for p in range(15)] + [("DT", 0, 1)]
     ctx.shard(job, jobs, "complete enumeration of model configurations (direct simulator path, instrumented ProtocolResponse.read)")
+    ctx.shard(transient_job, [(p, 16) for p in range(16)], "same, plus one transient failure (no answer / exception 4) at request k of the polling sequence, 4 polls")
+    ctx.exhaustive_parts.append("6 ET capability classes x 3 power classes x 32 refusal subsets x transient failure at request 0..8 x {silent, busy}; DT likewise")
     ctx.exhaustive_parts.append("ET: %d serial tags x 3 power classes x battery on/off x 32 refusal subsets x UDP/TCP; DT: %d tags x 8 refusal subsets x UDP/TCP" % (
         len(siminv.et_serials()), len(siminv.dt_serials())))
 
